@@ -1116,6 +1116,19 @@ func (f *Frugal) validateConstant(constant *Constant) error {
 		}
 		return fmt.Errorf("Referenced constant %s not found", name)
 	} else if len(pieces) == 2 {
+		// A value of an enum of this file, written Enum.VALUE
+		for _, enum := range f.Enums {
+			if enum.Name != pieces[0] {
+				continue
+			}
+			for _, value := range enum.Values {
+				if value.Name == pieces[1] {
+					return nil
+				}
+			}
+			return fmt.Errorf("Referenced enum value %s not found", name)
+		}
+
 		// From an include
 		frugal := f
 		includeName := pieces[0]
